@@ -613,6 +613,59 @@ def listOfOne (key : String) (sorts : List String) (m : Nat) (ts : Src) : Row :=
        [("elements.size", .val "#1"), ("elements.0", ts), ("size", .val "#1"), ("index.size", .val "#1"), ("index.0", ts)]) ++
      [("operand.size", .val "#1"), ("operand.0", .arg m), ("elements.size", .val "#1"), ("elements.0", .arg m), ("size", .val "#1")])
 
+/-- a base-class subobject is named like its type; it lives in the class's region of bases (interface 1810-1823) -/
+def baseRow : Row :=
+  node "Class::declare_base(Type)" .Base_type .generative ["Region", "Class", "Type"] (some (.arg 2))
+    (uniqueDeclP [("name", .via 2 .h_name)] (memberHome (.arg 0) (.arg 1)) [("lexical_region", .same "home_region")] [("initializer", .unset)] ++
+     [("position", .val "#0")])
+
+/-- an enumerator has the type of its enumeration (interface 1795-1799) -/
+def enumeratorRow : Row :=
+  node "Enum::add_member(Name)" .Enumerator .generative ["Region", "Enum", "Name"] (some (.arg 1))
+    (uniqueDeclP [("name", .arg 2)] (memberHome (.arg 0) (.arg 1)) [("lexical_region", .same "home_region")] [("initializer", .absent)] ++
+     [("position", .val "#0")])
+
+/-- a parameter: name, type, the level of its list, position 0 in a fresh list, no default (interface 1825-1833) -/
+def parameterRow : Row :=
+  node "Parameter_list::add_member(Name,Type)" .Parameter .generative ["Region", "Mapping_level", "Mapping", "Parameter_list", "Name", "Type"] (some (.arg 5))
+    (uniqueDeclP [("name", .arg 4)] (memberHome (.arg 0) (.arg 2)) [("lexical_region", .same "home_region")] [("initializer", .absent)] ++
+     [("level", .arg 1), ("position", .val "#0"), ("default_value", .absent)])
+
+def mappingParamRow : Row :=
+  node "Mapping::param(Name,Type)" .Parameter .generative ["Region", "Mapping_level", "Mapping", "Name", "Type"] (some (.arg 4))
+    (uniqueDeclP [("name", .arg 3)] (memberHome (.arg 0) (.arg 2)) [("lexical_region", .same "home_region")] [("initializer", .absent)] ++
+     [("level", .arg 1), ("position", .val "#0"), ("default_value", .absent)])
+
+/-- **A later addition never merges with an earlier member.**  The row of the member that `r` documents, when the list already holds ONE
+    member (the last operand; the operands before it are the name / type the earlier member was made from) -- whatever the relation of
+    the two: the same name and the same type, the same name only, the same type only, no name at all.  The addition yields a NEW
+    member at the end: its position is 1 (positions are indices), the list's region and scope hold the earlier member and then this
+    one, and name and type are the ones given to THIS addition (interface 1426-1440: a parameter is characterised by its position). -/
+def secondMember (r : Row) (suffix : String) (extra : List String) (name : Option Src) : Row :=
+  let first := r.sorts.length + extra.length - 1
+  { r with key := r.key ++ suffix, sorts := r.sorts ++ extra,
+           acc := r.acc.flatMap fun (a, s) =>
+             if a == "position" then [(a, Src.val "#1")]
+             else if a == "home_region.body.size" || a == "home_region.bindings.elements.size" || a == "home_region.bindings.size" then [(a, Src.val "#2")]
+             else if a == "home_region.body.0" then [(a, Src.arg first), ("home_region.body.1", Src.self)]
+             else if a == "home_region.bindings.elements.0" then [(a, Src.arg first), ("home_region.bindings.elements.1", Src.self)]
+             else if a == "name" then [(a, name.getD s)]
+             else [(a, s)] }
+
+def secondParameters (r : Row) : List Row :=
+  [secondMember r "#after-same-key" ["Name", "Type", "Parameter"] none,
+   secondMember r "#after-same-name" ["Name", "Type", "Parameter"] none,
+   secondMember r "#after-same-type" ["Name", "Type", "Parameter"] none,
+   secondMember r "#both-unnamed" ["Name", "Type", "Parameter"] (some (.const .k_empty_identifier))]
+
+/-- The global namespace a unit is created with: named by the empty identifier, a region of its own that is the global one. -/
+def unitNamespace : List A :=
+  [("global_namespace", .own)] ++ pre "global_namespace" (
+     [("kind", .val "$Namespace"), ("type", .const .k_namespace), ("name", .const .k_empty_identifier)] ++ cxx ++ [("region", .own)] ++
+     pre "region" [("kind", .val "$Region"), ("span", .val "#0:0:0-0:0:0"), ("enclosing", .unset), ("owner", .same "global_namespace"),
+                   ("body.size", .val "#0"), ("bindings", .own), ("global", .val "#1")] ++
+     [("scope", .same "global_namespace.region.bindings"), ("members.size", .val "#0")])
+
 def containers : List Row :=
   [node "Region::make_subregion()" .Region .generative ["Region"] none
      ([("span", .val "#0:0:0-0:0:0"), ("enclosing", .arg 0), ("owner", .absent), ("body.size", .val "#0"), ("bindings", .own)] ++
@@ -629,21 +682,15 @@ def containers : List Row :=
   -- which stays the master; everything else reads as for a first declaration (interface 1765-1770; src/impl.cxx `redeclare` paths)
   redeclMakers ++
   udtOrder (declMakers "Udt" regionFns ["Region", "Class"] (.const .k_typename)) ++
-  [ -- a base-class subobject is named like its type; it lives in the class's region of bases (interface 1810-1823)
-    node "Class::declare_base(Type)" .Base_type .generative ["Region", "Class", "Type"] (some (.arg 2))
-      (uniqueDeclP [("name", .via 2 .h_name)] (memberHome (.arg 0) (.arg 1)) [("lexical_region", .same "home_region")] [("initializer", .unset)] ++
-       [("position", .val "#0")]),
-    -- an enumerator has the type of its enumeration (interface 1795-1799)
-    node "Enum::add_member(Name)" .Enumerator .generative ["Region", "Enum", "Name"] (some (.arg 1))
-      (uniqueDeclP [("name", .arg 2)] (memberHome (.arg 0) (.arg 1)) [("lexical_region", .same "home_region")] [("initializer", .absent)] ++
-       [("position", .val "#0")]),
-    -- a parameter: name, type, the level of its list, position 0 in a fresh list, no default (interface 1825-1833)
-    node "Parameter_list::add_member(Name,Type)" .Parameter .generative ["Region", "Mapping_level", "Mapping", "Parameter_list", "Name", "Type"] (some (.arg 5))
-      (uniqueDeclP [("name", .arg 4)] (memberHome (.arg 0) (.arg 2)) [("lexical_region", .same "home_region")] [("initializer", .absent)] ++
-       [("level", .arg 1), ("position", .val "#0"), ("default_value", .absent)]),
-    node "Mapping::param(Name,Type)" .Parameter .generative ["Region", "Mapping_level", "Mapping", "Name", "Type"] (some (.arg 4))
-      (uniqueDeclP [("name", .arg 3)] (memberHome (.arg 0) (.arg 2)) [("lexical_region", .same "home_region")] [("initializer", .absent)] ++
-       [("level", .arg 1), ("position", .val "#0"), ("default_value", .absent)]),
+  [baseRow, enumeratorRow, parameterRow, mappingParamRow] ++
+  -- a member added to a list that already holds one whose key it repeats: a NEW member at the end (see `secondMember`)
+  secondParameters parameterRow ++ secondParameters mappingParamRow ++
+  [secondMember enumeratorRow "#after-same-key" ["Name", "Enumerator"] none,
+   secondMember enumeratorRow "#after-other-name" ["Name", "Enumerator"] none,
+   secondMember enumeratorRow "#both-unnamed" ["Name", "Enumerator"] (some (.const .k_empty_identifier)),
+   secondMember baseRow "#after-same-key" ["Type", "Base_type"] none,
+   secondMember baseRow "#after-other-type" ["Type", "Base_type"] none] ++
+  [
     node "Block::new_handler(Name,Type)" .Handler .generative ["Region", "Block", "Name", "Type"] (some .unset) (handlerP .unset),
     node "Block::add_stmt(Expr)" .Block .generative ["Region", "Block", "Expr"] (some .unset)
       (stmtP ++ [("region", .own)] ++ pre "region" (
@@ -670,12 +717,23 @@ def containers : List Row :=
     listOfOne "Expr_list::push_back(Expr)#late-linked" ["Expr_list", "While", "Expr", "Expr"] 1 (.via 1 .h_type),
     -- a module unit has a global namespace of its own (named by the empty identifier) and belongs to its module
     obj "Module::make_unit()" .Module_unit .generative ["Module"]
-      ([("global_namespace", .own)] ++ pre "global_namespace" (
-         [("kind", .val "$Namespace"), ("type", .const .k_namespace), ("name", .const .k_empty_identifier)] ++ cxx ++ [("region", .own)] ++
-         pre "region" [("kind", .val "$Region"), ("span", .val "#0:0:0-0:0:0"), ("enclosing", .unset), ("owner", .same "global_namespace"),
-                       ("body.size", .val "#0"), ("bindings", .own), ("global", .val "#1")] ++
-         [("scope", .same "global_namespace.region.bindings"), ("members.size", .val "#0")]) ++
-       [("imported_modules.size", .val "#0"), ("parent_module", .arg 0), ("purview.size", .val "#0")])]
+      (unitNamespace ++ [("imported_modules.size", .val "#0"), ("parent_module", .arg 0), ("purview.size", .val "#0")]),
+    -- a module: its name has no stem yet, its interface unit is created with it and belongs to it, no implementation unit yet
+    obj "Module::Module(Lexicon)" .Module .generative []
+      ([("name", .own), ("name.kind", .val "$Module_name"), ("name.stems.size", .val "#0"), ("interface_unit", .own)] ++
+       pre "interface_unit" (
+         [("kind", .val "$Interface_unit"), ("global_namespace", .own)] ++ pre "global_namespace" (
+            [("kind", .val "$Namespace"), ("type", .const .k_namespace), ("name", .const .k_empty_identifier)] ++ cxx ++
+            [("region", .own), ("scope", .own), ("members.size", .val "#0")]) ++
+         [("imported_modules.size", .val "#0"), ("parent_module", .self), ("purview.size", .val "#0"),
+          ("exported_modules.size", .val "#0"), ("exported_declarations.size", .val "#0")]) ++
+       [("implementation_units.size", .val "#0")]),
+    -- the interface unit of a module (interface: Interface_unit): FOUR member sequences -- the modules it imports, the declarations of
+    -- its purview, the modules it re-exports, the declarations it exports -- all empty at creation, each filled by the client
+    obj "Module::Module(Lexicon)#interface-unit" .Interface_unit .generative ["Module"]
+      (unitNamespace ++ [("imported_modules.size", .val "#0"), ("parent_module", .arg 0), ("purview.size", .val "#0"),
+                         ("exported_modules.size", .val "#0"), ("exported_declarations.size", .val "#0")]),
+    obj "Translation_unit::Translation_unit(Lexicon)" .Translation_unit .generative [] (unitNamespace ++ [("imported_modules.size", .val "#0")])]
 
 /-! ### attributes, capture specifications, declarator forms -/
 
@@ -772,6 +830,20 @@ factory again with operands of particular forms, and the documented row is the b
 * `#list-filled-later` — an `Expr_list` operand (and a `Block` next to it) is EMPTY when the node is made and filled by the client
   afterwards (before or after the first read), or filled before and grown afterwards: supplied is supplied — the part reads as
   present and as that very list.
+* `#near-equal` — the request is made right BEFORE / right AFTER a request to the same function whose operands differ from its own in
+  exactly ONE operand, and there only in a component that a factory might regard as insignificant: a `Type` operand is `T` in one
+  request and a cv-qualified `T` in the other (either of the two is the one observed), a `Function` operand differs only in
+  `throws()` / only in its transfer / only in the qualification of its target, a `Forall` operand in the qualification of its target;
+  the name, the word, the scope the declaration is entered into are THE SAME.  Near-equal operands are different operands: the node
+  reports the ones IT was given (a second function declaration of a name reports its own type and is its own master; the literal
+  `(const int, "42")` is not the literal `(int, "42")`).  Not for `Qualified`, whose normal form merges qualifiers.
+
+and one form that concerns the RESULT rather than the operands:
+
+* `#lists-filled` — every member sequence of the result that the client fills (`fillOrder`) receives members right after the call: the
+  j-th sequence of the node j+1 of them, no member given to two sequences (further operands, after the operands of the call).  Each
+  sequence accessor reports exactly the members given to THAT sequence, in order: the purview of an interface unit is not its export
+  list, the attributes of a lambda are not its captures (`filledForm`).
 -/
 
 def isTypeKind : Kind → Bool
@@ -798,15 +870,62 @@ def reservedForm (r : Row) : Row :=
                       if a == "second" || a == "string" then (a, Src.arg n) else (a, s) }
   else form r "#reserved-spelling"
 
+/-- a request can have a near-equal neighbour when it takes a type, a function type or a template type -/
+def nearable (r : Row) : Bool :=
+  r.kind != .Qualified && (r.sorts.contains "Type" || r.sorts.contains "Function" || r.sorts.contains "Forall")
+
 /-- the operand forms under which the entry of base row `r` is run again, in the order the probe runs them -/
 def operandForms (r : Row) : List Row :=
   (if nestable r then [form r "#nested"] else []) ++
   (if r.sorts.contains "Expr" then [form r "#resolved-operand"] else []) ++
   (if spelled r then [reservedForm r] else []) ++
-  (if r.sorts.contains "Expr_list" && r.kind != .Expr_list then [form r "#list-filled-later"] else [])
+  (if r.sorts.contains "Expr_list" && r.kind != .Expr_list then [form r "#list-filled-later"] else []) ++
+  (if nearable r then [form r "#near-equal"] else [])
 
-/-- The documented wiring: every base row followed by its operand forms. -/
-def expectedWiring : Table := baseWiring.flatMap fun r => r :: operandForms r
+/-- The member sequences a client fills through the implementation class of a result: the accessor the interface documents for each
+    and the sort of its members, in the order the probe fills them (`fill_lists` of harness/c02probe.cxx: imports, purview, exported
+    modules, exported declarations of a unit; attributes; captures of a lambda; trailing arguments of a constraint; suffix of a
+    declarator species; indirectors of a declarator; elements of a braced initializer; requirements of a requires-expression; names and
+    declarations of a structured binding).  Three accessor names are shared with sequences of other kinds that are filled through a
+    factory of their own (`elements` of an expression list, `body` of a block, `bindings` of a region): they count for one kind only. -/
+def fillOrder : List (String × String × Option Kind) :=
+  [("imported_modules", "Module", none), ("purview", "Decl", none), ("exported_modules", "Module", none), ("exported_declarations", "Decl", none),
+   ("attributes", "Attribute", none), ("captures", "Capture_specification", none), ("trailing_arguments", "Expr", none),
+   ("suffix", "Morphism", none), ("indirectors", "Indirector", none), ("elements", "Elemental_initializer", some .Braced_provision),
+   ("body", "Requirement", some .Requires), ("names", "Identifier", none), ("bindings", "Decl", some .Structured_binding)]
+
+/-- the sequences of `fillOrder` that row `r` documents as empty at creation -/
+def listsOf (r : Row) : List (String × String) :=
+  (fillOrder.filter fun (a, _, only) =>
+    (r.acc.any fun (b, s) => b == a ++ ".size" && s == Src.val "#0") && (match only with | some k => k == r.kind | none => true)).map
+    fun (a, sort, _) => (a, sort)
+
+def digit : Nat → String
+  | 0 => "0" | 1 => "1" | 2 => "2" | 3 => "3" | 4 => "4" | 5 => "5" | 6 => "6" | 7 => "7" | 8 => "8" | _ => "9"
+
+/-- (accessor, sort of members, index of the first member among the operands, number of members): the j-th sequence gets j+1 members -/
+def fillPlan (ls : List (String × String)) (start count : Nat) : List (String × String × Nat × Nat) :=
+  match ls with
+  | [] => []
+  | (a, sort) :: rest => (a, sort, start, count) :: fillPlan rest (start + count) (count + 1)
+
+/-- **Every sequence accessor reports the members given to that sequence.**  The row of `r`'s result once each of its member
+    sequences has been filled: the members are further operands (after the operands of the call, sequence by sequence), and the
+    sequence documented under accessor `a` reads its size and, position by position, exactly the operands that were given to IT. -/
+def filledForm (r : Row) : Row :=
+  let plan := fillPlan (listsOf r) r.sorts.length 1
+  { r with key := r.key ++ "#lists-filled",
+           sorts := r.sorts ++ plan.flatMap fun (_, sort, _, k) => List.replicate k sort,
+           acc := r.acc.flatMap fun (a, s) =>
+             match plan.find? fun (l, _, _, _) => l ++ ".size" == a with
+             | some (l, _, start, k) => (a, Src.val ("#" ++ digit k)) :: (List.range k).map fun i => (l ++ "." ++ digit i, Src.arg (start + i))
+             | none => [(a, s)] }
+
+/-- the forms that concern the result of base row `r` -/
+def resultForms (r : Row) : List Row := if (listsOf r).isEmpty then [] else [filledForm r]
+
+/-- The documented wiring: every base row followed by its operand forms and its result forms. -/
+def expectedWiring : Table := baseWiring.flatMap fun r => r :: (operandForms r ++ resultForms r)
 
 /-! ### Parts supplied through a builder after creation (`links` of the model): the latest call wins -/
 
@@ -828,7 +947,7 @@ theorem operandForms_same (r f : Row) (hf : f ∈ operandForms r) (hw : "word_vi
   simp only [List.mem_append] at hf
   have hform : ∀ sfx, f = form r sfx → f.kind = r.kind ∧ f.cat = r.cat ∧ f.storage = r.storage ∧ f.sorts = r.sorts ∧ f.typ = r.typ ∧ f.acc = r.acc := by
     intro sfx h; subst h; simp [form]
-  rcases hf with ((h | h) | h) | h
+  rcases hf with (((h | h) | h) | h) | h
   · split at h
     · exact hform _ (by simpa using h)
     · simp at h
@@ -839,6 +958,9 @@ theorem operandForms_same (r f : Row) (hf : f ∈ operandForms r) (hw : "word_vi
     · have : f = reservedForm r := by simpa using h
       subst this
       simp [reservedForm, hw, form]
+    · simp at h
+  · split at h
+    · exact hform _ (by simpa using h)
     · simp at h
   · split at h
     · exact hform _ (by simpa using h)
